@@ -4,7 +4,7 @@ The prompt gives a sub-agent the property text only, plus one-line summaries of 
 import glob, json, os, re, subprocess, sys
 
 wave = sys.argv[1]
-template = open('/tmp/seed8_prompt_C01.txt').read()
+template = open(os.path.join(os.path.dirname(os.path.abspath(__file__)), 'seed_prompt_template.txt')).read()
 head = template.split('\n\nNote: earlier, independent attempts')[0]
 tail = 'Also: put the body of demo.py under' + template.split('Also: put the body of demo.py under')[1]
 props = {json.loads(l)['id']: json.loads(l) for l in open('/verif/properties.jsonl')}
